@@ -335,7 +335,11 @@ func (m *maskedView) Seek(off int64, whence int) (int64, error) {
 
 func genOpsISO(r *rand.Rand, size int64, n int) []viewOp {
 	var ops []viewOp
+	far := FarOffsets()
 	off := func() int64 {
+		if r.Intn(14) == 0 {
+			return far[r.Intn(len(far))]
+		}
 		switch r.Intn(5) {
 		case 0:
 			return int64(r.Intn(int(size/2048)+1)) * 2048
